@@ -83,6 +83,7 @@ structure Setup where
   reportFlush : Bool := true
   keepUnreported : Bool := true
   flushInvalid : Bool := true
+  replayCatch : Bool := true
   sinks : List Sink := []
   lgs : List Lg := []
 
@@ -91,7 +92,8 @@ def mkState (u : Setup) (hdr strOv now : Nat) : BSt :=
   { cfg := { dropping := u.dropping, qcap := u.qcap, grace := u.grace, soft := u.soft, hard := u.hard, hdr := hdr,
              strOverhead := strOv, batchPct := u.batchPct, qp := qp, invalidBits := u.invalidBits,
              refreshAfterSample := u.refreshAfter, catchAllFormat := u.catchAll,
-             reportBeforeFlushCleanup := u.reportFlush, cleanupKeepsUnreported := u.keepUnreported, flushInvalidatedLoggers := u.flushInvalid },
+             reportBeforeFlushCleanup := u.reportFlush, cleanupKeepsUnreported := u.keepUnreported, flushInvalidatedLoggers := u.flushInvalid,
+             replayCatchesPerEvent := u.replayCatch },
     now := now, sinks := u.sinks, lgs := u.lgs,
     names := (List.range u.lgs.length).map (fun i => ((u.lgs.getD i default).gid, i)) }
 
@@ -131,6 +133,7 @@ def runTrace : IO UInt32 := do
         | some ("reportFlush", v) => u := { u with reportFlush := v == "1" }
         | some ("keepUnreported", v) => u := { u with keepUnreported := v == "1" }
         | some ("flushInvalid", v) => u := { u with flushInvalid := v == "1" }
+        | some ("replayCatch", v) => u := { u with replayCatch := v == "1" }
         | _ => pure ()
     | "cfg" :: rest =>
       for x in rest ++ Drv.words obsS do
